@@ -115,6 +115,9 @@ static struct argp argp = {options, parse_opt, args_doc, doc};
 int main (int argc, char *argv[]) {
     struct arguments arguments = {0};
 
+    /* Files we open must not land on a closed stdin/stdout/stderr */
+    reserve_std_fds();
+
     /* Defaults */
     arguments.log_level = ZCK_LOG_ERROR;
 
